@@ -173,7 +173,11 @@ func f32bits(v reflect.Value) uint32 {
 	return math.Float32bits(float32(v.Float()))
 }
 
-// declared defaults: members that ResetDefault overwrites when they hold junk
+// declared defaults: the value ResetDefault gives a scalar member that held junk, where that value is not the
+// zero value of the member's type. (The repaired ResetDefault assigns EVERY member - its declared default or the
+// zero value - so "overwritten" no longer tells a declared default from none; a declared default that equals the
+// zero value is indistinguishable from no default in everything the generated code does - omission test of the
+// encoder, reset value - and is rendered as None.)
 func declaredDefaults(e regEntry) map[int]string {
 	out := map[int]string{}
 	junk := e.mk()
@@ -228,7 +232,7 @@ func declaredDefaults(e regEntry) map[int]string {
 			continue
 		}
 		a, b := dumpVal(jv.Field(f.Idx)), dumpVal(jv2.Field(f.Idx))
-		if a != before[i] || b != before2[i] {
+		if (a != before[i] || b != before2[i]) && a != dumpVal(reflect.Zero(jv.Field(f.Idx).Type())) {
 			out[f.Idx] = a
 		}
 	}
